@@ -54,7 +54,12 @@ PROPS["C17"] = {
                  H("ZZ_C17_Reset", params={"L": 32}, reach=["after-reset"]),
                  H("ZZ_C17_AddWithReset", params={"L": 16}, reach=["after-add", "reset-happened"]),
                  H("ZZ_C17_AddWithReset", params={"L": 32}, reach=["after-add", "reset-happened"]),
-                 H("ZZ_C17_Ensure", reach=["after-ensure", "grown"])],
+                 H("ZZ_C17_Ensure", reach=["after-ensure", "grown"]),
+                 # second solver on the same encodings (a disagreement fails the check)
+                 H("ZZ_C17_AddStep", reach=["after-add"], solver="cvc5", bounds="cross-check with cvc5"),
+                 H("ZZ_C17_Addn", params={"N": 2}, reach=["after-addn"], solver="cvc5", bounds="cross-check with cvc5"),
+                 H("ZZ_C17_Reset", params={"L": 16}, reach=["after-reset"], solver="cvc5", bounds="cross-check with cvc5"),
+                 H("ZZ_C17_Ensure", reach=["after-ensure", "grown"], solver="cvc5", bounds="cross-check with cvc5")],
 }
 
 
@@ -69,6 +74,9 @@ PROPS["C03"] = {
               H("ZZ_C03_Range", reach=["range-done"]),
               H("ZZ_C03_Reset", reach=["read-done"]),
               H("ZZ_C03_Loading", reach=["read-done"])],
+    "thorough": [H("ZZ_C03_Get", reach=["read-done", "hit"]), H("ZZ_C03_Range", reach=["range-done"]), H("ZZ_C03_Reset", reach=["read-done"]), H("ZZ_C03_Loading", reach=["read-done"]),
+                 H("ZZ_C03_Get", reach=["read-done", "hit"], solver="cvc5", bounds="cross-check with cvc5"), H("ZZ_C03_Reset", reach=["read-done"], solver="cvc5", bounds="cross-check with cvc5"),
+                 H("ZZ_C03_Loading", reach=["read-done"], solver="cvc5", bounds="cross-check with cvc5")],
 }
 
 _c04_step_quick = [{"P0": 5}, {"P0": 62, "P1": 7}, {"P0": 63, "P1": 7}, {"P0": 63, "P1": 63, "P2": 3}, {"P0": 63, "P1": 63, "P2": 31, "P3": 1}, {"P0": 63, "P1": 63, "P2": 31, "P3": 3}]
@@ -90,7 +98,9 @@ PROPS["C04"] = {
                  H("ZZ_C04_Resched", reach=["rescheduled"]), H("ZZ_C04_Deschedule", reach=["descheduled"]),
                  H("ZZ_C04_Slot3", params={"P0": 5}, reach=["advanced"]), H("ZZ_C04_Slot3", params={"P0": 63, "P1": 7}, reach=["advanced"]),
                  H("ZZ_C04_Jump", reach=["jumped"]), H("ZZ_C04_Jump", params={"K": 4194303}, reach=["jumped"]),
-                 H("ZZ_C04_Store", reach=["two-ticks"]), H("ZZ_C04_LateUpdate", reach=["three-ticks"])],
+                 H("ZZ_C04_Store", reach=["two-ticks"]), H("ZZ_C04_LateUpdate", reach=["three-ticks"]),
+                 H("ZZ_C04_Base", reach=["placed"], solver="cvc5", bounds="cross-check with cvc5"),
+                 H("ZZ_C04_Step", params={"P0": 63, "P1": 7}, reach=["advanced", "removed", "kept"], solver="cvc5", bounds="cross-check with cvc5")],
 }
 
 def _c07(M, capbits, climbM):
@@ -112,7 +122,8 @@ PROPS["C07"] = {
     "assumptions": ["invariant I (DESIGN.md §4 C07) as pre-state", "weights 1..capacity for resident entries", "admission outcome arbitrary (over-approximation)"],
     "outside_bound": ["more than M entries per region (quick 1, thorough 2)", "capacity above 2^60 (2^40 for the climber lemma)"],
     "quick": _c07(1, 60, 1),
-    "thorough": _c07(2, 32, 1),
+    "thorough": _c07(2, 32, 1) + [H("ZZ_C07_Set", params={"M": 1, "CAPBITS": 16}, reach=["set-done"], bounds="cross-check with z3 (capacity <= 2^16)"),
+                                  H("ZZ_C07_Update", params={"M": 1, "CAPBITS": 16}, reach=["update-done"], bounds="cross-check with z3 (capacity <= 2^16)")],
 }
 
 PROPS["C06"] = {
